@@ -89,10 +89,12 @@ def probe_maps(ctx, scr, gen):
 
 def check_screen(ctx, aotools, variant, nx, ps, r0, L0, extra, rng, tag):
     from scipy import linalg
-    wit = {"variant": variant, "nx": nx, "pixel_scale": ps, "r0": r0, "L0": L0, "columns_or_length_factor": extra, "family_member": tag}
+    wit = {"variant": variant, "nx": nx, "pixel_scale": float(ps), "pixel_scale_type": type(ps).__name__, "r0": r0, "L0": L0,
+           "columns_or_length_factor": extra, "family_member": tag}
     gen = ScriptedGenerator([])
     try:
         scr = build(aotools, variant, nx, ps, r0, L0, extra, gen)
+        ps = float(ps)
     except (linalg.LinAlgError, np.linalg.LinAlgError):
         ctx.count("constructions_raising_LinAlgError")
         return False
@@ -251,4 +253,7 @@ def run(ctx, spec):
                        (ps * float(rng.uniform(1.3, 3)), r0, L0, 3), (ps, r0, L0, 4), (ps, r0, L0 * float(rng.uniform(1.5, 4)), 5)]
             for (p_, r_, l_, tag) in members:
                 check_screen(ctx, aotools, variant, nx, p_, r_, l_, extra, rng, tag)
+            # integer-typed pixel scale (Python int / numpy integer): positions must not be truncated
+            ips = [3, np.int64(5), 7, np.int32(2)][int(rng.integers(0, 4))]
+            check_screen(ctx, aotools, variant, min(nx, 17), ips, r0, float(ips) * 10 ** rng.uniform(1.3, 3), extra, rng, "int_pixel_scale")
             check_natural(ctx, aotools, variant, min(nx, 20), ps, r0, L0, extra, rng)
